@@ -555,6 +555,7 @@ var assumptionText = map[string]string{
 	"A-IMG":     "representation invariants of image.* types; color.Color.RGBA returns alpha-premultiplied 16-bit channels",
 	"A-DET":     "assumed contract clauses (kind `assumes`): each extractMetadata result is a deterministic function of the bytes of its input",
 	"A-STDSRC":  "integer-only standard library functions (image.*.PixOffset, At/Set accessors, color conversions) are executed symbolically from the installed standard library's source",
+	"A-FRAME":   "a function called through its contract may change scalar contents of the objects reachable from its arguments but does not reassign their pointer/interface-valued fields",
 	"A-PAR":     "sync.Once.Do and parallel.RunWorkers behave as documented",
 }
 
